@@ -380,6 +380,13 @@ class C30(core.Check):
                     bx, by = r3.randint(vr[0], vr[2]), r3.randint(vr[1], vr[3])
                     ex('LINE (%d,%d)-(%d,%d),%d' % (ax - ox, ay - oy, bx - ox, by - oy, r3.randrange(case['noise'][2])))
             s._impl.interpreter.error_num = 0
+            if not case.get('noise'):
+                # a setup statement that failed (e.g. Overflow of the last-point PSET under WINDOW) has printed its
+                # message into the active page: restore the uniform background the model starts from
+                for p in sel:
+                    pix = disp.pages[p]._pixels
+                    if bytes(pix.to_bytes()) != bytes([case['bg']]) * (pix.width * pix.height):
+                        pix[:, :] = case['bg']
             info.update({'w': w, 'h': h, 'npages': npages, 'ap': ap, 'sel': sel, 'bpp': g._mode.bitsperpixel,
                          'view': G.view_of(g), 'nattr': g._num_attr})
             # oracle's own idea of the clip rectangle, from the BASIC statements issued (not from graph_view)
